@@ -20,6 +20,8 @@ func main() {
 		serve()
 	case "gen":
 		gen(os.Args[2:])
+	case "gram":
+		gramMain(os.Args[2:])
 	case "prop":
 		propMain(os.Args[2:])
 	default:
